@@ -565,8 +565,13 @@ class Lin:
         return self.c == 0 and not self.t
 
     def __eq__(self, o):
+        if o is None:
+            return False
         if not isinstance(o, Lin):
-            o = Lin(o)
+            try:
+                o = Lin(o)
+            except (TypeError, ValueError):
+                return False
         return self.c == o.c and self.t == o.t
 
     def __hash__(self):
